@@ -35,14 +35,15 @@ FORD_OPTS = dict(display=["public", "private", "protected"], proc_internals=True
 
 KINDS = ["variable", "parameter", "type", "subroutine", "function", "generic", "absinterface", "operator",
          "component", "binding", "binding2",        # binding2: two bindings declared by one statement
-         "generic2"]                                # generic2: one generic name extended by a second interface block
+         "generic2",                                # generic2: one generic name extended by a second interface block
+         "constructor"]                             # constructor: a type and a generic interface of the same name
 DEFAULTS = [None, "public", "private"]
 POSITIONS = ["early", "late"]
 
 
 def hows_for(kind):
     hows = [None]
-    if kind in ("variable", "parameter", "type"):
+    if kind in ("variable", "parameter", "type", "constructor"):
         hows += [("attr", "public"), ("attr", "private")]
     if kind == "variable":
         hows += [("attr", "protected"), ("stmt_after", "protected"), ("stmt_before", "protected")]
@@ -102,6 +103,18 @@ def build(kind, default, pos, how, ch, with_context=True, excl=()):
         decls.insert(at, {"d": "type", "name": tname, "abstract": False, "extends": None, "access": acc,
                           "access_how": where or "attr", "sequence": False, "private_comps": False,
                           "comps": [_var("c_in_target", I)], "private_binds": False, "binds": [], "finals": [], "doc": None})
+    elif kind == "constructor":
+        decls.insert(at, {"d": "type", "name": tname, "abstract": False, "extends": None, "access": acc,
+                          "access_how": where or "attr", "sequence": False, "private_comps": False,
+                          "comps": [_var("c_in_target", I)], "private_binds": False, "binds": [], "finals": [], "doc": None})
+        T = {"base": "type", "proto": tname}
+        ctor = {"k": "function", "name": "make_target", "args": ["a"], "prefix": [], "rettype": T, "decls": [_var("a", I)],
+                "exec": ["make_target%c_in_target = a"], "procs": [], "uses": [], "doc": None}
+        ctor["decls"][0]["intent"] = "in"
+        m["procs"].append(ctor)
+        # the generic name is the type's name: one identifier, one accessibility
+        decls.insert(ch.int(len(decls) + 1), {"d": "interface", "form": "generic", "name": tname, "modprocs": ["make_target"],
+                                              "bodies": [], "doc": None, "access": acc, "access_how": "attr"})
     elif kind in ("subroutine", "function"):
         p = {"k": kind, "name": tname, "args": [], "prefix": [], "decls": [], "exec": [], "procs": [], "uses": [],
              "doc": None, "access": acc, "access_how": where}
